@@ -85,6 +85,8 @@ def alphabet(w, h):
     ops.append(["edit", "src", "1" if cur["src"] == "0" else "0"])
     for n in NAMES:
         ops += [["uwrite", n, "U1\n"], ["uwrite", n, "U2 longer\n"], ["ureplace", n, "R\n"], ["rm", n]]
+        # an older file of exactly the size of the generated one (a.x(0) / t(0) plus newline)
+        ops.append(["uold", n, "O" * (len(n) + 3) + "\n"])
     return ops
 
 
@@ -95,7 +97,7 @@ def main(tier):
                     (world_csum(), alphabet_csum, 3 if tier == "quick" else 5, 2 if tier == "quick" else 3)], "rv.props.c11",
         rule="BFS over all histories <= d (quick 3, thorough 5) of {redo-ifchange a.x|t|all, redo a.x|t, edit src, and for each of "
              "the names a.x (matched by default.x.do) and t (t.do): user-edit in place (two contents of different size), "
-             "user-replace (new inode), user-rm}; an ownership ledger records the last writer of each path; oracle: every "
+             "user-replace (new inode), user-restore (an OLDER file of exactly the generated size), user-rm}; an ownership ledger records the last writer of each path; oracle: every "
              "redo command leaves bytes and inode of every user-owned path unchanged, warns when it skips a user-modified "
              "generated file, runs exactly the scripts the reference allows, and gives from-scratch contents after exit 0 "
              "(in particular it rebuilds after the user removed the file). Second world: the same on a checksummed target c "
